@@ -77,6 +77,7 @@ PROPS = {
     },
     "C09": {
         "translators": ["t3"],
+        "entries": ["C09", "C09gen"],
         "count": {"quick": 40, "thorough": 400},
         "rule": "random structures of arbitrary shape (empty models / chains / residues / conformers allowed in two thirds of the cases, ragged, duplicate ids): "
                 "the canonical walk (all counts, every flat iterator, atoms-with-hierarchy tuples, at the PDB level and for every model, chain, residue and "
